@@ -80,6 +80,16 @@ pub fn case(idx: u64, seed: u64, p: &Params, o: &mut CaseOut) {
                 }
             }
             tie = check(&dm, &rows, inf, o, "usize");
+            {
+                // clone_from into a matrix of the same order but another infinity value
+                let mut dst = DistanceMatrix::<usize>::new(n, inf.wrapping_sub(3).max(1));
+                dst.clone_from(&dm);
+                let _ = check(&dst, &rows, inf, o, "usize(clone_from)");
+                o.check(dst == dm && dst.infinity == inf, "clone_from-result-differs", || format!("infinity {} vs {}", dst.infinity, inf));
+                let mut dst2 = DistanceMatrix::<usize>::new(n + 1, inf);
+                dst2.clone_from(&dm);
+                o.check(dst2 == dm, "clone_from-result-differs(other order)", String::new);
+            }
             desc = format!("usize matrix order {n} infinity {inf} rows {rows:?}");
         }
         3 | 4 => {
